@@ -613,6 +613,38 @@ TransportCase(w) ==
 Vec(s, op, x) ==
     [fam |-> "schema", s |-> s, op |-> op, arg |-> x, exp |-> Declared(s, op, x), mod |-> Outcome(s, op, x), sub |-> Sub(s, op, x)]
 
+\* ------------------------------------------------------------------ C02: colliding keys in typed raw maps
+\* Two DIFFERENT raw keys of one Go type can denote the same key: the strings "1" / "01" / "+1" for an integer key,
+\* "60s" / "1m" with units.  Raw maps keyed by strings (map[string]any, map[string]string) and by interface values,
+\* against integer-keyed map schemas with and without a lower size bound; the pair <<"1", "2">> is the control.
+DupKeySchemas ==
+    {MapS(k, w, b[1], b[2], t) :
+        k \in {IntS(None, None, None), IntS(Some(1), Some(7), None), IntS(None, None, Some("sec")), EnumIntS(<<1, 7>>, None)},
+        w \in {StringS(None, None, None), AnyS}, b \in { <<None, None>>, <<Some(2), None>>, <<Some(2), Some(2)>> }, t \in BOOLEAN}
+DupKeyTexts(s) ==
+    IF s.keys.units.some
+    THEN { <<"60s", "1m">>, <<"1m", "60s">>, <<"1s", "0m1s">>, <<"1s", "1m">>, <<"1", "1s">> }
+    ELSE { <<"1", "01">>, <<"01", "1">>, <<"1", "+1">>, <<"01", "+1">>, <<"7", "+7">>, <<"7", "07">>, <<"07", "+7">>, <<"1", "2">>, <<"1", "7">> }
+DupKeyRaw(s) ==
+    {M(rep, << <<Str(p[1]), Str("a")>>, <<Str(p[2]), Str("b")>> >>) : rep \in {"string_any", "any_any", "typed"}, p \in DupKeyTexts(s)}
+    \cup (IF s.keys.units.some THEN {}
+          ELSE {M(rep, << <<Str("1"), Str("a")>>, <<Str("2"), Str("a")>>, <<Str("01"), Str("b")>> >>) : rep \in {"string_any", "typed"}}
+               \cup {M("any_any", << <<Str("01"), Str("a")>>, <<I64(1), Str("b")>> >>)})
+
+\* ------------------------------------------------------------------ C02: unanchored patterns
+\* (the scalar universe holds every pattern x every value token; here below list items, on all three operations)
+UnanchoredPats == {"lit", "idn", "sfx"}
+PatListSchemas == {ListS(StringS(None, None, Some(p)), None, None, t) : p \in UnanchoredPats, t \in BOOLEAN}
+PatPairToks == {"abc", "xabc", "my id-7", "id-7", "file.txt", ".txt", "txt"}
+PatListItems == {<<t>> : t \in G("g_pattern")} \cup {<<t, u>> : t \in PatPairToks, u \in PatPairToks}
+PatListOf(rep, ts) == L(rep, [i \in 1..Len(ts) |-> Str(ts[i])])
+
+InitC02Extra ==
+    \/ \E s \in DupKeySchemas : \E x \in DupKeyRaw(s) : vec = Vec(s, "unser", x)
+    \/ \E s \in PatListSchemas : \E ts \in PatListItems :
+          \/ \E rep \in {"any", "typed"} : vec = Vec(s, "unser", PatListOf(rep, ts))
+          \/ ~s.typed /\ \E op \in {"valid", "ser"} : vec = Vec(s, op, PatListOf("typed", ts))
+
 InitC02 ==
     \/ \E s \in BigUnitSchemas : \E x \in BigRaw : vec = Vec(s, "unser", x)
     \/ \E s \in C02Scalars :
@@ -627,6 +659,7 @@ InitC02 ==
           \/ ~s.typed /\ \E x \in NativeMaps(s) : \E op \in {"valid", "ser"} : vec = Vec(s, op, x)
     \/ \E s \in DeepSchemas : \E x \in DeepRaw(s) : vec = Vec(s, "unser", x)
     \/ \E s \in AnyContainerSchemas : \E x \in AnyContainerRaw(s) : vec = Vec(s, "unser", x)
+    \/ InitC02Extra
 
 InitC04 ==
     \/ \E leaf \in C04Leafs : \E x \in C04Values : \E p \in Positions(leaf, x) :
@@ -659,7 +692,62 @@ C03Objects ==
     \cup Objs1("ptrs", BOOLEAN, {FALSE}) \cup Objs2("ptrs", DisSet, {FALSE})
     \cup Objs3L2("map") \cup Objs3L2("ptrs")
     \cup (IF Deep THEN Objs3("map") \cup Objs3("ptrs") ELSE {})
+\* ------------------------------------------------------------------ C03: equal IDs on a shorthand chain
+\* The single-property inline shorthand hands a lone non-map value down a chain of single-property objects.  Two
+\* DIFFERENT objects of the chain may carry the same ID - an object nested directly, or the root of a nested scope
+\* (its own table) named like the outer object: that is no cycle, the lone value reaches the leaf.  (Genuine
+\* self-references - LoopScope - are rejected: RefScopes.)
+SameIdLeaf(id) == ObjectS(id, << Prop("a", TA, TRUE) >>, "map", FALSE)
+SameIdChains ==
+    { ObjectS("P", << Prop("x", SameIdLeaf(i2), TRUE) >>, "map", FALSE) : i2 \in {"P", "Q"} }
+    \cup { ObjectS("P", << Prop("x", ScopeS(i2, << SameIdLeaf(i2) >>), TRUE) >>, "map", FALSE) : i2 \in {"P", "Q"} }
+    \cup { ScopeS("P", << ObjectS("P", << Prop("x", ScopeS("P", << SameIdLeaf("P") >>), TRUE) >>, "map", FALSE) >>),
+           \* three links, the first and the last named alike
+           ObjectS("P", << Prop("x", ObjectS("Q", << Prop("n", SameIdLeaf("P"), TRUE) >>, "map", FALSE), TRUE) >>, "map", FALSE),
+           \* a reference in between: P -> ref N -> (nested scope) P
+           ScopeS("P", << ObjectS("P", << Prop("x", RefS("N"), TRUE) >>, "map", FALSE),
+                          ObjectS("N", << Prop("n", ScopeS("P", << SameIdLeaf("P") >>), TRUE) >>, "map", FALSE) >>) }
+SameIdRaw ==
+    { I64(1), I64(3), Str("1"), Str("a"), Nil, L("any", <<I64(1)>>),
+      M("any_any", << <<Str("x"), I64(1)>> >>), M("any_any", << <<Str("x"), M("any_any", << <<Str("a"), I64(1)>> >>)>> >>),
+      M("any_any", << <<Str("x"), M("any_any", << <<Str("n"), I64(1)>> >>)>> >>), M("any_any", <<>>) }
+
+\* ------------------------------------------------------------------ C03: list / map fields left at their zero value
+\* A by-value field of slice / map type always holds a value: left unassigned it is the EMPTY list / map (nil), which
+\* is a value of the property - "set" for required / conflicts / required_if, serialised as an empty list / mapping.
+\* (The harness runs every native struct value a second time with its empty list / map fields left nil.)
+NFL == ListS(IntS(None, None, None), None, None, FALSE)
+NFM == MapS(StringS(None, None, None), IntS(None, None, None), None, None, FALSE)
+NilFieldProps ==
+    { << Prop("a", TA, FALSE), Prop(nt[1], nt[2], TRUE) >> : nt \in { <<"l", NFL>>, <<"m", NFM>> } }
+    \cup { << PropS("a", TA, FALSE, IF r = 1 THEN <<nt[1]>> ELSE <<>>, IF r = 2 THEN <<nt[1]>> ELSE <<>>, IF r = 3 THEN <<nt[1]>> ELSE <<>>,
+                     None, FALSE, FALSE), Prop(nt[1], nt[2], TRUE) >> : nt \in { <<"l", NFL>>, <<"m", NFM>> }, r \in 1..3 }
+    \cup { << Prop("a", TA, FALSE), PropS(nt[1], nt[2], TRUE, <<>>, <<>>, <<"a">>, None, FALSE, FALSE) >> : nt \in { <<"l", NFL>>, <<"m", NFM>> } }
+    \cup { << Prop("l", NFL, TRUE), Prop("m", NFM, TRUE) >>,
+           << Prop("l", NFL, TRUE), PropS("m", NFM, TRUE, <<>>, <<>>, <<"l">>, None, FALSE, FALSE) >> }
+NilFieldObjs == {ObjectS("Z", ps, "ptrs", FALSE) : ps \in NilFieldProps}
+NilFieldChoices(n) ==
+    CASE n = "a" -> {None, Some(I64(1))}
+      [] n = "l" -> {Some(L("typed", <<>>)), Some(L("typed", <<I64(1)>>))}
+      [] n = "m" -> {Some(M("typed", <<>>)), Some(M("typed", << <<Str("a"), I64(1)>> >>))}
+NilFieldNat(s) ==
+    {Struct(s.layout, << <<s.props[1].name, v1>>, <<s.props[2].name, v2>> >>) :
+        v1 \in NilFieldChoices(s.props[1].name), v2 \in NilFieldChoices(s.props[2].name)}
+NilFieldRawChoices(n) ==
+    CASE n = "a" -> {I64(1)}
+      [] n = "l" -> {L("any", <<>>), L("any", <<I64(1)>>), Nil}
+      [] n = "m" -> {M("any_any", <<>>), M("string_any", << <<Str("a"), I64(1)>> >>)}
+NilFieldRaw(s) ==
+    LET one(i) == {M("any_any", << <<Str(s.props[i].name), w>> >>) : w \in NilFieldRawChoices(s.props[i].name)} IN
+    {M("any_any", <<>>)} \cup one(1) \cup one(2)
+    \cup {M("any_any", << <<Str(s.props[1].name), w1>>, <<Str(s.props[2].name), w2>> >>) :
+            w1 \in NilFieldRawChoices(s.props[1].name), w2 \in NilFieldRawChoices(s.props[2].name)}
+
 InitC03 ==
+    \/ \E s \in SameIdChains : \E x \in SameIdRaw : vec = Vec(s, "unser", x)
+    \/ \E s \in NilFieldObjs :
+          \/ \E x \in NilFieldRaw(s) : vec = Vec(s, "unser", x)
+          \/ \E x \in NilFieldNat(s) : \E op \in {"valid", "ser"} : vec = Vec(s, op, x)
     \/ \E s \in C03Objects :
           \/ \E x \in ObjRawArgs(s) : vec = Vec(s, "unser", x)
           \/ Len(s.props) <= 2 /\ ~(\E i \in DOMAIN s.props : s.props[i].disabled) /\ \E x \in ObjRawExtra(s) : \E op \in {"unser", "compat"} : vec = Vec(s, op, x)
@@ -736,7 +824,18 @@ MBRaw(s) ==
     CASE s.kind = "string" -> toks
       [] s.kind = "list" -> {L("any", <<x>>) : x \in toks}
       [] s.kind = "object" -> {M("any_any", << <<Str("b"), x>> >>) : x \in toks}
+\* "The typed entry points return the same results as the untyped ones" - also where the result is a rejection:
+\* every scalar schema of C01 with the raw values the statement REJECTS, and every bounded float schema of the C02
+\* universe (with and without units) with the non-finite classes - NaN, +-Inf as float64 / float32 / string.
+\* The harness runs UnserializeType on the raw value and ValidateType / SerializeType on it where it is of the
+\* entry points' type, against Unserialize / Validate / Serialize.
+NonFiniteRaw(s) ==
+    {FS(r, x) : r \in FloatReps, x \in {"nan", "+inf", "-inf"}}
+    \cup {Str(t) : t \in {u \in G("g_float") : Tok[u].flt.ok /\ Tok[u].flt.cls # "num"}}
+BoundedFloats == {s \in FloatSchemas(FloatBP, UnitOpts) : s.min.some \/ s.max.some}
 InitC01 ==
+    \/ \E s \in C01Scalars : \E x \in ScalarRaw(s) : ~Accepting(s, x) /\ vec = VecChain(s, x)
+    \/ \E s \in BoundedFloats : \E x \in NonFiniteRaw(s) : vec = VecChain(s, x)
     \* (the chain is run whenever the CODE accepts: these vectors are not filtered by the model's verdict)
     \/ \E s \in MBSchemas : \E x \in MBRaw(s) : vec = VecChain(s, x)
     \/ \E s \in C01Scalars \cup C02Scalars : \E x \in ScalarRaw(s) \cup (IF s.kind = "any" THEN AnyRaw ELSE {}) : Accepting(s, x) /\ vec = VecChain(s, x)
